@@ -255,6 +255,14 @@ def handle (toks : List String) : Option String :=
       let r := LevelStats.pageLevelStats md mr es
       s!"ok {r.numValues} {r.numNulls} {r.numRows} {showList toString r.defHist} {showList toString r.repHist} {r.unencoded}"
     | _, _, _ => "bad-op"
+  | ["c05.bufnulls", maxDef, defs] => some <|
+    -- mirror of nullableColumnIndex.NullCount / NullPage over the definition levels of the buffer (`-` = none),
+    -- then the level-0 slip for comparison
+    match parseNat? maxDef, parseList? parseNat? defs with
+    | some md, some ds =>
+      let b := fun (x : Bool) => if x then "1" else "0"
+      s!"ok {LevelStats.bufferIndexNullCount false md ds} {b (LevelStats.bufferIndexNullPage false md ds)} {LevelStats.bufferIndexNullCount true md ds} {b (LevelStats.bufferIndexNullPage true md ds)}"
+    | _, _ => "bad-op"
   | ["c05.hist", maxLevel, pages] => some <|
     -- pages separated by `;`, levels by `,`, `-` = page without levels
     match parseNat? maxLevel, (pages.splitOn ";").mapM (parseList? parseNat?) with
